@@ -650,6 +650,10 @@ class Machine:
             return set_dest(args[1]) if a0[2] == 0 else run_closure([a0[3][0]], None)
         if name.endswith('Option::<T>::is_some_and') and is_opt and clo is not None:
             return set_dest(A0) if a0[2] == 0 else run_closure([a0[3][0]], None)
+        if name.endswith('Option::<T>::unwrap_or_else') and is_opt and clo is not None:
+            return set_dest(a0[3][0]) if a0[2] == 1 else run_closure([], None)
+        if name.endswith('Option::<T>::or_else') and is_opt and clo is not None:
+            return set_dest(a0) if a0[2] == 1 else run_closure([], None)
         if name.endswith('Option::<T>::unwrap_or') and is_opt and len(args) == 2:
             return set_dest(a0[3][0] if a0[2] == 1 else args[1])
         if name.endswith('Option::<T>::ok_or') and is_opt and len(args) == 2:
